@@ -801,12 +801,15 @@ register(
     families=[("cuts_sync", 3, gen_c12("sync", 121)), ("cuts_async", 3, gen_c12("async", 122)),
               ("cuts_cycles_sync", 1, gen_c12("sync", 123, cycles=3)),
               ("cuts_hist_parallel_async", 1, gen_c12("async", 124, hist_parallel=True, p_parallel=0.4)),
-              ("corrupt_sync", 1, gen_c12_corrupt("sync", 125)), ("corrupt_async", 1, gen_c12_corrupt("async", 126))],
+              ("corrupt_sync", 1, gen_c12_corrupt("sync", 125)), ("corrupt_async", 1, gen_c12_corrupt("async", 126)),
+              # snapshots taken while an INVOKED child machine is alive, continuations that leave / re-enter the invoking state
+              ("cuts_invoked_machine_sync", 2, gen_c12("sync", 127, p_invoke=0.45, svc_kinds=("machine", "machine", "sync"))),
+              ("cuts_invoked_machine_async", 2, gen_c12("async", 128, p_invoke=0.45, svc_kinds=("machine", "machine", "sync")))],
     runner=C12.run_c12,
     stats=C12.stats_c12,
     level="fault_enumeration",
     chunk=10,
-    tiers={"quick": {"runs": 3000}, "thorough": {"runs": 60000}},
+    tiers={"quick": {"runs": 2400}, "thorough": {"runs": 60000}},
     rule=("per sampled scenario of n events: for EVERY k <= n the run is cut after event k: get_snapshot(), the interpreter is abandoned "
           "(its tasks/threads die silently), a fresh machine is built from the same config, from_snapshot + start, and events k+1..n are "
           "replayed; the restored run must agree with the uninterrupted one after every continuation event on configuration, context, "
